@@ -7,6 +7,10 @@ Driver entries of the lifecycle group (C09).
      r s b t     run / reset / reboot (both stores) / teardown      (R S B T are read the same)
      a0 a1       let the thread leave its parking place and advance to the next one; the digit is
                  what run_condition() returns if the thread is parked inside that call
+     F           (first token only) boot() fails to create the thread
+     b1 b2       reboot() split at schedule point 6 (between `reset_ = true` and `run_ = false`, mutex held)
+     u           spurious wake-up of the condition wait
+     jw          as j, with wait() called while the thread is still held (it must not return early)
      j           let the thread run freely (run_condition() = false from now on) and join it
      jt          the same with run_condition() = true from now on (64 moves must suffice: meant for
                  schedules in which teardown was requested)
@@ -14,7 +18,8 @@ Driver entries of the lifecycle group (C09).
 Parking places of the thread (= the places where the harness can hold the real thread):
   0 1 2 3 4   the schedule points of filtering_recursion()       (pc top, preWait, preInit, afterLoop, preFinal)
   k           entry of the condition wait, mutex held            (blocking)
-  w           blocked inside the condition wait                  (waiting)
+  w           blocked inside the condition wait                  (waiting, no notification pending)
+  v           woken, mutex not yet re-acquired, predicate not yet re-evaluated   (waiting, notification pending)
   i s c       inside initialization_step / filtering_step / run_condition   (inInit, inStep, inA|outA)
   f           ended                                              (done)
 Output, one word per token:  tok:events:place:is_running:step_number[:d]
@@ -67,10 +72,6 @@ def settle (cfg : Cfg) : Nat → T → T
       | some _ => settle cfg n (t.step cfg (.t false))
       | none => t
 
-/-- a thread blocked in the wait with a notification pending wakes up by itself -/
-def wake (cfg : Cfg) (t : T) : T :=
-  if t.s.pc == .waiting && t.s.woken && !t.s.mid then settle cfg 8 (t.step cfg (.t false)) else t
-
 def advance (cfg : Cfg) (t : T) (c : Bool) : T :=
   match thr t.s c with
   | none => t
@@ -90,8 +91,7 @@ def needsMutex (cfg : Cfg) : Cmd → Bool
 
 def applyCmd (cfg : Cfg) (t : T) (x : Cmd) : T :=
   let t1 := t.step cfg (.c x)
-  let t2 := if x == .reboot then t1.step cfg .fin else t1
-  wake cfg t2
+  if x == .reboot then t1.step cfg .fin else t1
 
 def evStr : Ev → Option String
   | .init => some "I"
@@ -104,8 +104,11 @@ def newEvents (s : St) (n0 : Nat) : String :=
   let evs := ((s.hist.take (s.hist.length - n0)).reverse).filterMap evStr
   if evs.isEmpty then "-" else ".".intercalate evs
 
+/-- parking place; a thread in the wait with a notification pending (`v`) has not re-acquired the mutex yet -/
+def placeOf (s : St) : String := if s.pc == .waiting && s.woken then "v" else place s.pc
+
 def obs (tok : String) (s : St) (n0 : Nat) : String :=
-  s!"{tok}:{newEvents s n0}:{place s.pc}:{if s.isRunning then 1 else 0}:{s.stepNumber}"
+  s!"{tok}:{newEvents s n0}:{placeOf s}:{if s.isRunning then 1 else 0}:{s.stepNumber}"
 
 def freeRun (cfg : Cfg) (c : Bool) : Nat → T → T
   | 0, t => t
@@ -116,11 +119,27 @@ def freeRun (cfg : Cfg) (c : Bool) : Nat → T → T
 structure Run where
   t : T
   pending : List Cmd := []
+  /-- an advance made while the thread's next move needs the mutex held by an unfinished reboot() -/
+  padv : Option Bool := none
   out : Array String := #[]
   hung : Bool := false
 
 def runTok (cfg : Cfg) (r : Run) (tok : String) : Option Run :=
   let n0 := r.t.s.hist.length
+  if tok == "F" then
+    if r.out.isEmpty then
+      some { r with t := { s := St.bootFailed, vis := #[absState St.bootFailed] }, out := r.out.push (obs tok St.bootFailed 0) }
+    else none
+  else if tok == "b1" then
+    let t1 := r.t.step cfg (.c .reboot)
+    some { r with t := t1, out := r.out.push (obs tok t1.s n0) }
+  else if tok == "b2" then
+    let t1 := r.t.step cfg .fin
+    let t2 := match r.padv with
+      | some c => advance cfg t1 c
+      | none => t1
+    some { r with t := t2, padv := none, out := r.out.push (obs tok t2.s n0) }
+  else
   match cmdOf tok with
   | some x =>
     if r.t.s.pc == .blocking && needsMutex cfg x then
@@ -129,11 +148,16 @@ def runTok (cfg : Cfg) (r : Run) (tok : String) : Option Run :=
       let t' := applyCmd cfg r.t x
       some { r with t := t', out := r.out.push (obs tok t'.s n0) }
   | none =>
-    if tok == "a0" || tok == "a1" then
+    if (tok == "a0" || tok == "a1") && r.t.s.mid && (r.t.s.pc == .preWait || (r.t.s.pc == .waiting && r.t.s.woken)) then
+      some { r with padv := some (r.padv.getD (tok == "a1")), out := r.out.push (obs tok r.t.s n0) }
+    else if tok == "a0" || tok == "a1" then
       let t1 := advance cfg r.t (tok == "a1")
       let t2 := r.pending.foldl (applyCmd cfg) t1
       some { r with t := t2, pending := [], out := r.out.push (obs tok t2.s n0) }
-    else if tok == "j" || tok == "jt" then
+    else if tok == "u" then
+      let t1 := r.t.step cfg .spur
+      some { r with t := t1, out := r.out.push (obs tok t1.s n0) }
+    else if tok == "j" || tok == "jt" || tok == "jw" then
       let c := tok == "jt"
       let t1 := r.pending.foldl (applyCmd cfg) (freeRun cfg c 64 r.t)
       let t2 := freeRun cfg c 64 t1
